@@ -74,12 +74,17 @@ def string_twin(text, exp, k):
     return (text.replace('"%s"' % old, '"%s"' % new), json.loads(dumped.replace(json.dumps(old), json.dumps(new))), new)
 
 
+_ALIVE = []      # the last results stay referenced, as in a long-lived tool
+
+
 def parse_text(text):
     """-> ("ok", normalized dict) | ("err", repr) | ("raised", msg)"""
     from fcp.parser import get_fcp_from_string
     from fcp.error import Logger
     try:
         r = get_fcp_from_string(text, Logger({}))
+        _ALIVE.append(r)
+        del _ALIVE[:-40]
     except Exception as e:
         return "raised", "%s: %s" % (type(e).__name__, str(e)[:300])
     try:
